@@ -156,14 +156,15 @@ def handle_quic_packet(packet: Packet, keylog, quic_sessions: list[QuicSession],
 
     for session in quic_sessions:
         # first try matching connection IDs
+        # a zero-length connection ID identifies nothing: such packets are matched by address below
         if header_type == QuicHeaderType.LONG:
-            if dcid in session.client_cids or dcid in session.server_cids:
+            if dcid and (dcid in session.client_cids or dcid in session.server_cids):
                 session.handle_packet(packet, dcid, quic_version)
                 return
         else:
-            # match by checking all known cid lengths for session
-            for cid in session.client_cids | session.server_cids:
-                if cid == packet_payload[1:1 + len(cid)]:
+            # match by checking all known cid lengths for session, longest first (deterministic)
+            for cid in sorted(session.client_cids | session.server_cids, key=len, reverse=True):
+                if cid and cid == packet_payload[1:1 + len(cid)]:
                     session.handle_packet(packet, cid, quic_version)
                     return
 
